@@ -508,12 +508,18 @@ def check_once(ctx: Context, rep, rule: str) -> None:
                         "process_record", "self._process_record")):
                 apply_nodes[node] = "map"
                 continue
+            # a reader built with the transformation applies it where its
+            # process_and_list is used (iterate_shard never applies it)
+            pal_refs = [x for x in list(c.args) + [k.value for k in c.keywords]
+                        + [c.func] if isinstance(x, ast.Attribute) and
+                        x.attr == "process_and_list" and "process_record" in
+                        tf.tags_at(node, x.value)]
+            if pal_refs:
+                apply_nodes[node] = "reader+process_and_list"
+                continue
             for t in ctx.res.resolve_call(fn, c, count=False):
                 if t.kind == "class" and t.cls.fq in readers:
-                    e = ctx.arg(c, 1, "process_record")
-                    if e is not None and "process_record" in tf.tags_at(node, e):
-                        apply_nodes[node] = "reader+process_and_list" if \
-                            uses_pal else "reader-unused"
+                    pass
                 elif t.kind == "class" and t.cls.fq == C.RUST_GEN.replace(":", "."):
                     e = ctx.arg(c, None, "process_record")
                     if e is not None and "process_record" in tf.tags_at(node, e):
@@ -522,39 +528,60 @@ def check_once(ctx: Context, rep, rule: str) -> None:
                     e = ctx.arg(c, None, "process_record")
                     if e is not None and "process_record" in tf.tags_at(node, e):
                         apply_nodes[node] = "delegation"
-        # calls inside lambdas (delegation in as_tfdataset)
-        lam_apps = 0
+        # how many applications a yielded / returned stream went through:
+        # streams carry the set of possible counts {c0, c1, c2}; an
+        # application site maps every count k to k+1; joins keep all
+        # possibilities; what leaves the function must be exactly {c1}
+        COUNTS = ("c0", "c1", "c2")
+        site_of = {id(n.ast): k for n, k in apply_nodes.items()}
+
+        def bump(tags: frozenset) -> frozenset:
+            cur = [t for t in tags if t in COUNTS] or ["c0"]
+            return frozenset(t for t in tags if t not in COUNTS) | frozenset(
+                COUNTS[min(2, COUNTS.index(t) + 1)] for t in cur)
+
+        def count_hook(e, st, rec):
+            if isinstance(e, ast.Lambda):
+                return rec(e.body)
+            if isinstance(e, ast.Call) and id(e) in site_of:
+                args = list(e.args) + [k.value for k in e.keywords]
+                if isinstance(e.func, ast.Attribute):
+                    args.append(e.func.value)
+                t = frozenset()
+                for a in args:
+                    t |= rec(a)
+                return bump(t)
+            return None
+
+        # application sites inside lambdas (delegation in as_tfdataset)
         for n in ast.walk(fn.node):
             if isinstance(n, ast.Lambda):
                 for c in ast.walk(n.body):
                     if isinstance(c, ast.Call):
                         e = ctx.arg(c, None, "process_record")
                         if e is not None and "process_record" in names_in(e):
-                            lam_apps += 1
-        # path counts {0,1,2}
-        counts: dict[Node, frozenset] = {cfg.entry: frozenset({0})}
-        work = [cfg.entry]
-        while work:
-            nd = work.pop()
-            cur = counts[nd]
-            inc = 1 if apply_nodes.get(nd) in ("map", "reader+process_and_list",
-                                               "delegation") else 0
-            out = frozenset(min(2, x + inc) for x in cur)
-            for m, lab in nd.succ:
-                if lab in ("exc", "raise"):
-                    continue
-                old = counts.get(m, frozenset())
-                new = old | out
-                if new != old:
-                    counts[m] = new
-                    work.append(m)
-        at_exit = counts.get(cfg.exit, frozenset())
-        if lam_apps:
-            at_exit = frozenset(min(2, x + lam_apps) for x in at_exit)
-        rep.ob(rule, at_exit == frozenset({1}), loc=fn.loc(), where=fn.qualname,
-               construct=f"applications per path: {sorted(at_exit)}; sites: " +
-               ", ".join(f"L{n.lineno}:{k}" for n, k in sorted(
-                   apply_nodes.items(), key=lambda kv: kv[0].lineno)),
+                            site_of[id(c)] = "delegation"
+        tfc = TagFlow(cfg, {}, hook=count_hook)
+        outs: list[tuple[ast.AST, frozenset]] = []
+        live = cfg.live_nodes()
+        for node in cfg.nodes:
+            if node not in live:
+                continue
+            if node.kind == "yield" and node.ast.value is not None:
+                outs.append((node.ast, tfc.tags_at(node, node.ast.value)))
+            elif node.kind == "stmt" and isinstance(node.ast, ast.Return) and \
+                    node.ast.value is not None and not fn.is_generator():
+                outs.append((node.ast, tfc.tags_at(node, node.ast.value)))
+        seen_counts = set()
+        for _o, t in outs:
+            seen_counts |= {x for x in t if x in COUNTS} or {"c0"}
+        at_exit = sorted(COUNTS.index(x) for x in seen_counts)
+        rep.ob(rule, bool(outs) and at_exit == [1], loc=fn.loc(),
+               where=fn.qualname,
+               construct=f"applications on the yielded / returned streams: "
+               f"{at_exit}; sites: " + ", ".join(
+                   f"L{n.lineno}:{k}" for n, k in sorted(
+                       apply_nodes.items(), key=lambda kv: kv[0].lineno)),
                message="exactly one application of the caller's "
                "transformation on every path")
     # readers: process_and_list applies once, iterate_shard does not apply
@@ -926,6 +953,8 @@ def run(ctx: Context, rep) -> None:
     rustrules.check_cursor(ctx, rep, "C02.rust-cursor")
     from sa.rules import shared
     shared.check_no_memo(ctx, rep, "C02.memo")
+    from sa.rules import shared as _shared
+    _shared.check_fresh_pass(ctx, rep, "C02.fresh-pass")
 
 
 
